@@ -129,6 +129,12 @@ fn sig_menu(k: usize) -> Option<jmespath::functions::Signature> {
         7 => Some(Signature::new(vec![A::String], Some(A::String))),
         8 => Some(Signature::new(vec![], Some(A::Number))),
         9 => Some(Signature::new(vec![A::Number], Some(A::Union(vec![A::Number, A::Null])))),
+        10 => Some(Signature::new(vec![A::TypedArray(Box::new(A::TypedArray(Box::new(A::Number))))], None)),
+        11 => Some(Signature::new(vec![A::TypedArray(Box::new(A::Union(vec![A::String, A::Number])))], None)),
+        12 => Some(Signature::new(
+            vec![A::TypedArray(Box::new(A::TypedArray(Box::new(A::Union(vec![A::Null, A::String])))))],
+            Some(A::TypedArray(Box::new(A::Any))),
+        )),
         _ => Some(Signature::new(vec![], None)),
     }
 }
